@@ -7,6 +7,7 @@ import ast
 from .astutil import calls, const, kw, parent_map, short, straightline_env, inline
 from .backends import backend_paths, reachable
 from .kutil import Spec
+from .inline import _bind as _bind_args
 from .program import AnalysisIncomplete, Ext, Func, Partial, norm
 from .sym import Rat
 
@@ -77,7 +78,7 @@ def loop_cursors(f):
     return out
 
 
-def check_cursors(rep, fs, prop, entry_of):
+def check_cursors(rep, fs, prop, entry_of, prog=None):
     n = 0
     for f in fs:
         for lp, name, stores in loop_cursors(f):
@@ -96,6 +97,99 @@ def check_cursors(rep, fs, prop, entry_of):
                 'a running offset that delimits consecutive segments must be advanced on EVERY iteration (at the top '
                 'level of the loop body): advancing it only when the item is selected makes the next selected '
                 'segment start too early')
+        if prog is not None:
+            n += check_segments(prog, rep, f, entry_of)
+    return n
+
+
+def cursor_floor(prog, rep, pub, per_backend):
+    """every backend path of the public function must reach at least `per_backend` Z1 instances (the stride routine's
+    cursor and the per-item segment): counted per path, so that sharing one loop between backends is not a loss"""
+    for p in backend_paths(prog, pub):
+        t = p.func()
+        if not isinstance(t, Func) or 'cupy' in p.backend or t.module is not pub.module:
+            continue
+        names = {g.qualname for g in reachable(prog, t, 6)}
+        got = sum(1 for ob in rep.obs if ob.rule == 'Z1' and getattr(ob, 'func', None) in names)
+        if got < per_backend:
+            rep.incomplete.append('rule Z1 matched %d instances on the %s path of %s, below the confirmed floor %d'
+                                  % (got, p.backend, pub.name, per_backend))
+
+
+def _loop_index(lp):
+    """name of the position variable of `for i in range(..)` / `for i, x in enumerate(..)`"""
+    if isinstance(lp.iter, ast.Call) and norm(lp.iter.func) == 'range' and isinstance(lp.target, ast.Name):
+        if len(lp.iter.args) == 1 or (len(lp.iter.args) == 2 and const(lp.iter.args[0]) == 0):
+            return lp.target.id
+    if isinstance(lp.iter, ast.Call) and norm(lp.iter.func) == 'enumerate' and len(lp.iter.args) == 1 and not lp.iter.keywords \
+            and isinstance(lp.target, ast.Tuple) and len(lp.target.elts) == 2 and isinstance(lp.target.elts[0], ast.Name):
+        return lp.target.elts[0].id
+    return None
+
+
+def check_segments(prog, rep, f, entry_of):
+    """Z1 (cursor-free form): a segment start computed from the break vector itself - `B[i - 1] if i > 0 else 0` - is
+    evaluated for i = 0..3: it must be 0 for the first item and the previous break afterwards, the end must be B[i]."""
+    from .kai import Arr
+    n = 0
+    for lp in [x for x in f.own_nodes() if isinstance(x, ast.For)]:
+        iv = _loop_index(lp)
+        if iv is None:
+            continue
+        # break vectors read at a neighbouring position of the loop index
+        nb = set()
+        for x in [y for s in lp.body for y in ast.walk(s)]:
+            if isinstance(x, ast.Subscript) and isinstance(x.value, ast.Name) and isinstance(x.slice, ast.BinOp) and \
+                    isinstance(x.slice.left, ast.Name) and x.slice.left.id == iv and isinstance(x.ctx, ast.Load):
+                nb.add(x.value.id)
+        if not nb:
+            continue
+        # the slices whose bounds are computed in the loop body
+        for sl in [y for s in lp.body for y in ast.walk(s) if isinstance(y, ast.Subscript) and isinstance(y.slice, ast.Slice)
+                   and y.slice.lower is not None and y.slice.upper is not None and y.slice.step is None]:
+            texts = norm(sl.slice.lower) + ' ' + norm(sl.slice.upper)
+            names = {z.id for z in ast.walk(sl.slice) if isinstance(z, ast.Name)}
+            pre = []
+            for s in lp.body:
+                if any(y is sl for y in ast.walk(s)):
+                    break
+                pre.append(s)
+            assigned = {t.id for s in pre for y in ast.walk(s) if isinstance(y, ast.Assign) for t in y.targets if isinstance(t, ast.Name)}
+            if not (names & nb) and not any(b in norm(v) for b in nb for s in pre for y in ast.walk(s) if isinstance(y, ast.Assign)
+                                            for v in [y.value] for t in y.targets if isinstance(t, ast.Name) and t.id in names):
+                continue
+            B = sorted(nb)[0]
+            vals = []
+            okall = True
+            why = ''
+            for k in range(4):
+                try:
+                    sp = Spec(prog, {b: Arr(b, 'param') for b in nb} | {iv: Rat.const(k)}, f.module)
+                    for s in pre:
+                        simple = isinstance(s, ast.Assign) and all(isinstance(t, ast.Name) for t in s.targets) and \
+                            not any(isinstance(y, ast.Call) for y in ast.walk(s.value))
+                        cond = isinstance(s, ast.If) and all(isinstance(y, ast.Assign) and all(isinstance(t, ast.Name) for t in y.targets) and
+                                                             not any(isinstance(z, ast.Call) for z in ast.walk(y.value))
+                                                             for y in s.body + s.orelse)
+                        if (simple or cond) and not ({z.id for z in ast.walk(s) if isinstance(z, ast.Name)} - set(nb) - {iv} - assigned):
+                            sp.it.block([s])
+                    lo = sp.it.ev(sl.slice.lower)
+                    hi = sp.it.ev(sl.slice.upper)
+                    wlo = Rat.const(0) if k == 0 else sp.expr('%s[%d]' % (B, k - 1))
+                    whi = sp.expr('%s[%d]' % (B, k))
+                except Exception as e:      # noqa - an unrecognised shape is reported as undecided
+                    raise AnalysisIncomplete('Z1 segment bounds of `%s` in %s not evaluable: %s' % (norm(sl), f.name, e))
+                if not (isinstance(lo, Rat) and isinstance(hi, Rat)):
+                    raise AnalysisIncomplete('Z1 segment bounds of `%s` in %s not scalar' % (norm(sl), f.name))
+                if lo != wlo or hi != whi:
+                    okall = False
+                    why = 'item %d: [%s:%s], expected [%s:%s]' % (k, lo, hi, wlo, whi)
+                    break
+            n += 1
+            rep.add('Z1', f, entry_of(f), 'segment `%s` in `for %s in %s`' % (norm(sl), norm(lp.target), norm(lp.iter)[:40]),
+                    sl.lineno, okall,
+                    'the cells of item i are the run between the previous break (0 for the first item) and break i of the '
+                    'same break vector, for every i - evaluated for i = 0..3' + ('; ' + why if why else ''))
     return n
 
 
@@ -786,14 +880,24 @@ def check_derived_stats(prog, rep, m, fs, entry):
         n += 1
         rep.add('Z6b', f, entry, '%s: %s' % (name, norm(rets[0]) if rets else ''), f.node.lineno, ok,
                 'must equal %s over (parameters in order) %s' % (text, f.params))
-    # call sites
+    # call sites (a derived-statistic helper calling another one passes its own parameters: covered by the formula rule)
     for f in fs:
+        if f.name in want:
+            continue
         for c in calls(f.node):
             if c not in f.own_nodes():
                 continue
             t = prog.resolve_callable(f, m, c.func)
             if isinstance(t, Func) and t.name in want:
-                args = [norm(a).replace(' ', '').replace('"', "'") for a in c.args]
+                # arguments with local aliases resolved (sums = stats_dict['sum'] ...): assignments before the call
+                from .astutil import inline as _inl, straightline_env as _senv
+                prior = sorted([s_ for s_ in f.own_nodes() if isinstance(s_, ast.Assign) and s_.lineno < c.lineno and
+                                not (isinstance(s_.targets[0], ast.Subscript))], key=lambda s_: (s_.lineno, s_.col_offset))
+                mutated = {norm(s_.targets[0].value) for s_ in f.own_nodes() if isinstance(s_, ast.Assign) and
+                           isinstance(s_.targets[0], ast.Subscript)}
+                envl = {k_: v_ for k_, v_ in _senv([s_ for s_ in prior if not any(
+                    isinstance(t_, ast.Name) and t_.id in mutated for t_ in s_.targets)]).items() if k_ not in mutated}
+                args = [norm(_inl(a, envl)).replace(' ', '').replace('"', "'") for a in c.args]
                 if t.name == '_dask_mean':
                     ok = args == ["stats_dict['sum']", "stats_dict['count']"]
                 else:
@@ -1041,10 +1145,46 @@ def check_crosstab_keys(prog, rep, m, entry):
                         'layer j of the zone\'s values belongs to category j')
     cn = _view(prog, m.funcs.get('_crosstab_numpy'))
     if cn is not None:
-        ok = any(norm(a) == '_DEFAULT_STATS[agg]' for c in calls(cn.node) for a in c.args)
+        lookups = ('_DEFAULT_STATS[agg]', '_DEFAULT_STATS.get(agg)')
+
+        def feeds(fn, depth):
+            """does fn hand the `agg` lookup to the 3-D per-zone routine (directly or through one helper's parameter)?"""
+            env = straightline_env(fn.node.body)
+            for c in calls(fn.node):
+                h = prog.resolve_callable(fn, fn.module, c.func)
+                if not isinstance(h, Func) or h.is_lambda:
+                    continue
+                b = _bind_args(h, c)
+                if h.name == '_single_zone_crosstab_3d':
+                    a = b.get(h.params[-1]) if b else (c.args[-1] if c.args else None)
+                    if isinstance(a, ast.Name) and a.id in env:
+                        a = env[a.id]
+                    if a is not None and norm(a) in lookups:
+                        return True
+                elif depth > 0 and b:
+                    # a helper that forwards one of its parameters to the per-zone routine
+                    for p, a in b.items():
+                        if isinstance(a, ast.Name) and a.id in env:
+                            a = env[a.id]
+                        if norm(a) in lookups and forwards(h, p):
+                            return True
+            return False
+
+        def forwards(h, p):
+            for c in calls(h.node):
+                g_ = prog.resolve_callable(h, h.module, c.func)
+                if isinstance(g_, Func) and g_.name == '_single_zone_crosstab_3d':
+                    b = _bind_args(g_, c)
+                    a = b.get(g_.params[-1]) if b else None
+                    stored = any(isinstance(x, ast.Name) and x.id == p and isinstance(x.ctx, ast.Store) for x in ast.walk(h.node))
+                    if isinstance(a, ast.Name) and a.id == p and not stored:
+                        return True
+            return False
+        ok = feeds(cn, 1)
         n += 1
         rep.add('X-agg', cn, entry, '3-D aggregate = _DEFAULT_STATS[agg]', cn.node.lineno, ok,
-                'the 3-D aggregate must be looked up by the caller\'s `agg` in the default statistics table')
+                'the 3-D aggregate must be looked up by the caller\'s `agg` in the default statistics table and handed to the '
+                'per-zone 3-D routine')
     return n
 
 
